@@ -755,6 +755,18 @@ func (in *Interp) conv(tdst, tsrc types.Type, x value) value {
 				}
 				return string(r)
 			}
+			if t, ok := x.(*Term); ok {
+				var t64 *Term
+				if ssigned {
+					t64 = mkSext(t, 64)
+				} else {
+					t64 = mkZext(t, 64)
+				}
+				if in.branch(mkCmp("bvult", t64, mkBV(0x80, 64))) {
+					return mkStr([]value{fromTerm(mkExtract(7, 0, t64))})
+				}
+				panic(unsupported{"string(symbolic non-ASCII rune)"})
+			}
 			panic(unsupported{"string(symbolic rune)"})
 		}
 		if isComplex(tdst) {
